@@ -12,13 +12,13 @@ P = {
          "Held on the executions produced: every Finished(NoError, Complete, Retained) indication observed at either user was checked, at the quiescent instant it was reported, against the source snapshot (length and bytes). Executions are sampled over content classes (incl. checksum-neutral and zero runs), sizes around segment boundaries, both modes, closure, 4 NAK procedures, CRC, checksum type, and random fault plans (drop/dup/delay/reorder/corrupt) plus a systematic single-lost-segment core. Not a proof: schedules and contents are sampled.",
          "Trusts: tokio's paused clock and seeded select (same code paths as production, virtual time), the harness link (SimTransport via the public PDUTransport trait), tmpfs filesystem semantics.", "DESIGN.md §5 C01"),
  "C02": ("fault_enumeration", "sim", "runtime monitor over systematically enumerated fault placements (every 1- and 2-fault placement of drop/dup/delay over both directions) on virtual-time executions",
-         "Every single and double fault placement within the property's hypothesis over the exchange of small files is executed against the real daemons; the oracle demands receiver success, sender success, byte-identical destination and termination of both tasks within the bound. Exhaustive for the enumerated layers; larger files and triples are sampled.",
+         "Every single and double fault placement within the property's hypothesis over the exchange of small files is executed against the real daemons; the oracle demands receiver success, sender success, byte-identical destination and termination of both tasks within the bound. Exhaustive for the enumerated layers; larger files and triples are sampled; an adaptive random dropper that keeps every retransmission counter below its limit adds long recoveries with many losses and progress in between.",
          "Hypothesis region is strictly inside the property's (F < limit, delays < min timer/2, Ti >= Ta+Tn). Trusts the simulator's link and virtual clock.", "DESIGN.md §5 C02"),
  "C03": ("fault_enumeration", "sim", "runtime monitor: task-lifetime guard (hook H3) + virtual clock; blackout at every emission index, termination bound checked per transaction",
-         "For every cut point of the exchange (blackout of either/both directions at every emission index) x mode x closure x NAK procedure, every transaction task must end within the bound B after the last PDU delivered to it, no loop may spin at one virtual instant, and the daemons must afterwards serve a fresh transfer and a Report. Enumerated cut points are complete for the reference exchanges; configurations are a grid.",
+         "For every cut point of the exchange (blackout of either/both directions at every emission index) x mode x closure x NAK procedure, every transaction task must end within the bound B after the last PDU delivered to it, no loop may spin at one virtual instant, and the daemons must afterwards serve a fresh transfer and a Report. Enumerated cut points are complete for the reference exchanges; configurations are a grid; user cancels, heavy random loss and Prompt requests at random points (including while the receiver waits for the ACK of Finished) are sampled.",
          "Timeouts >= 1 s (zero-second timers are not a meaningful configuration). The bound B is generous by design; a hang never ends and is caught by the 3*B observation window.", "DESIGN.md §5 C03"),
  "C04": ("fault_enumeration", "sim", "runtime monitor over enumerated re-deliveries of every previously sent PDU (singles and pairs) into the window between the receiver's success indication and its end",
-         "After the receiver's first success indication, each previously emitted PDU (and each pair) is delivered again while ACK(Finished) is withheld; the oracle checks the destination bytes, a non-idempotent append marker (requests executed exactly once), absence of integrity faults, and that sender success implies an earlier receiver success. Exhaustive for files of <= 3 segments.",
+         "After the receiver's first success indication, each previously emitted PDU (and each pair) is delivered again while ACK(Finished) is withheld; the oracle checks the destination bytes, a non-idempotent append marker (requests executed exactly once), absence of integrity faults, and that sender success implies an earlier receiver success. Exhaustive for files of <= 3 segments, in acknowledged mode and in unacknowledged mode with closure.",
          "Only the still-open transaction is in scope (as the property says). Trusts the simulator.", "DESIGN.md §5 C04"),
  "C05": ("exploration", "pure", "differential monitor: decode(encode(x)) == x and encoded_len == bytes produced, over generated values with the discrete fields enumerated",
          "Millions of generated well-formed values of every public codec type, discrete fields (flags, id widths 1/2/4/8, conditions, directives, statuses) enumerated completely, the rest random with boundary values; each is encoded, decoded and compared, and announced lengths are compared with produced lengths. Coverage cells per type must be non-empty.",
@@ -36,7 +36,7 @@ P = {
          "All sequences of up to 4 segments over 12 positions and up to 3 over 16 are enumerated; after every merge the returned count, the running total, is_complete for every n and gaps for every window are compared with the set-union model; random walks cover offsets up to 2^64-1.",
          "Uses the cfg-guarded re-export of the crate-private Segments type (hook H2).", "DESIGN.md §5 C09"),
  "C10": ("fault_enumeration", "sim", "runtime monitor: Cancel injected before/after every emission and delivery index, combined with single losses of the handshake PDUs and peer blackout; termination, cancel condition and destination-file rules",
-         "Cancel at sender or receiver at every index of the reference exchanges x modes x closure x single handshake losses x blackout; the oracle checks termination of the cancelling entity within its limits, termination and cancel condition at a reachable peer, and that the destination name never exposes partial content.",
+         "Cancel at sender or receiver at every index of the reference exchanges x modes x closure x single handshake losses x blackout; the oracle checks termination of the cancelling entity within its limits, termination and cancel condition at a reachable peer, that the destination name never exposes partial content, and that nothing is delivered after the receiver has reported the transaction cancelled (one recorded finding: the daemon re-creates a cancelled transaction from late PDUs).",
          "A cancel may legitimately lose the race against completion; the cancel-condition rule applies only to runs where the receiver never reported success.", "DESIGN.md §5 C10"),
  "C11": ("exploration", "sim", "runtime monitor over multi-daemon executions with many overlapping transactions, stray/replayed/hostile PDUs: per-transaction outcome, tagged content, id distinctness, daemon liveness probe",
          "2-3 real daemons with up to tens of overlapping transfers in both directions and mixed modes under random loss, with injected stray PDUs and raw bytes (virtual-time simulator), plus a real-time lane on a multi-thread runtime with a slow receiving filestore (back-pressure under real parallelism); each transaction must deliver its own tagged content and report its own outcome, Put ids must be distinct, and every daemon must still serve a fresh Put and Report at the end.",
@@ -45,7 +45,7 @@ P = {
          "Every name of up to 5 components over {a, ., .., empty, leading /, the root path, a sibling extending the root's name} is fed to every filestore operation; the computed native path must stay inside the root and the sentinel tree outside the root must be unchanged (escaping reads are caught by unique sentinel contents).",
          "Lexical confinement as stated by the property; symlinks inside the root are not modelled. The engine runs chrooted so that an escape cannot damage the host.", "DESIGN.md §5 C12"),
  "C13": ("exploration", "fs+sim", "reference-model monitor of the filestore request semantics (status + full tree comparison after every request) and end-to-end monitor of request execution/reporting in simulated transactions",
-         "(a) all request sequences of length <= 3 over a small namespace plus long random sequences against an executable model of the CFDP request semantics; (b) transactions carrying request lists under fault placements: executed iff delivery succeeded, once, in order, rest not-performed after the first failure, and the same responses at the receiving user, in the Finished PDU and at the sending user.",
+         "(a) all request sequences of length <= 3 over a small namespace plus long random sequences against an executable model of the CFDP request semantics; (b) every single request and every ordered pair of requests end to end, plus transactions carrying request lists under fault placements: executed iff delivery succeeded, once, in order, rest not-performed after the first failure, and the same responses at the receiving user, in the Finished PDU and at the sending user.",
          "Where the repository's own tests pin a reading of the spec, the model follows the pinned behaviour.", "DESIGN.md §5 C13"),
  "C14": ("exploration", "pure", "differential monitor: public checksum function against the CCSDS definition over all lengths 0..N and chunked/short-read readers; single-byte sensitivity",
          "Every length 0..4200 and lengths around the 8 KiB buffer, structured and random content, through Cursor, a real File and readers returning scripted short reads; result compared with the reference sum; every single-byte change must change the result.",
@@ -57,7 +57,7 @@ P = {
          "Every truncation length of every corpus PDU following every longer corpus PDU, CRC on/off, lock-step over 127.0.0.1; the transport's result must equal PDU::decode of exactly the datagram's bytes.",
          "Needs loopback UDP; a receive that does not return in 5 s is inconclusive.", "DESIGN.md §5 C16"),
  "C17": ("exploration", "pure+sim", "reference-model monitor of Counter/Timer under the paused clock, and timestamp monitor of retransmissions, limit faults and handler actions in simulated blackouts over a (T, L) grid",
-         "(a) random operation sequences on the real Counter/Timer compared with a reference counter after every step; (b) for a peer silent from every point of the exchange: exact number and spacing of EOF/Finished/NAK retransmissions, fault no earlier than L*T, reset on progress, and the configured handler action (ignore/suspend/abandon/cancel) observed on the link and at the user.",
+         "(a) random operation sequences on the real Counter/Timer compared with a reference counter after every step; (b) for a peer silent from every point of the exchange: exact number and spacing of EOF/Finished/NAK retransmissions, fault no earlier than L*T, reset on progress, the configured handler action (ignore/suspend/abandon/cancel) observed on the link and at the user, also with a different handler per condition, and a reached inactivity limit must be declared under its own condition.",
          "Timing tolerance tau = 50 ms on the late side only (tokio timer granularity); never-earlier is exact.", "DESIGN.md §5 C17"),
  "C18": ("fault_enumeration", "sim", "runtime monitor of PDU kinds per direction, termination points and closure outcome in unacknowledged mode under every single and double loss",
          "Closure on/off x every single and double loss over the exchange x sizes incl. 0 x zero-run/neutral content: no ACK/NAK/KeepAlive from the receiver; without closure both end on EOF; with closure the receiver's Finished carries the true outcome, the sender waits for it, reports it and ends; incomplete data or missing metadata is never reported Complete.",
